@@ -202,8 +202,8 @@ TWINS2 = [
                                                     "    def _build_token(self, token: lark.Token) -> models.RawTokenModel:\n        position = self._token_to_index[id(token)]\n        self._fix_gap(position)")]),
     silent('twin2-indent-flow-local', ['C18'], [(MI, "        self.append(MetaItem.from_value(index, value, indent=self._get_indent()))", "        indent = self._get_indent()\n        self.append(MetaItem.from_value(index, value, indent=indent))")]),
     silent('twin2-deepcopy-eq-order', ['C20', 'C11'], [(RP, "        return isinstance(other, Repeated) and self.items == other.items", "        return isinstance(other, Repeated) and other.items == self.items")]),
-    silent('twin2-unary-compare-eq', ['C13'], [('autobean_refactor/models/number_unary_expr.py', "        if self._unary_op.raw_text == '+':\n            return self._operand.value\n        elif self._unary_op.raw_text == '-':\n            return -self._operand.value",
-                                                "        if self._unary_op.raw_text == '-':\n            return -self._operand.value\n        elif self._unary_op.raw_text == '+':\n            return self._operand.value")]),
+    silent('twin2-unary-compare-eq', ['C13'], [('autobean_refactor/models/number_unary_expr.py', "        if self._unary_op.raw_text == '+':\n            return self._operand.value\n        elif self._unary_op.raw_text == '-':\n            return self._operand.value.copy_negate()",
+                                                "        if self._unary_op.raw_text == '-':\n            return self._operand.value.copy_negate()\n        elif self._unary_op.raw_text == '+':\n            return self._operand.value")]),
     silent('twin2-tokens-property-local', ['C01', 'C04'], [(BA, "        return list(self.token_store.iter(self.first_token, self.last_token))", "        first, last = self.first_token, self.last_token\n        return list(self.token_store.iter(first, last))")]),
     silent('twin2-value-setter-order', ['C08', 'C19', 'C02'], [(BT, "        self._value = value\n        self._update_raw_text(self._format_value(value))", "        raw_text = self._format_value(value)\n        self._value = value\n        self._update_raw_text(raw_text)")]),
 ]
@@ -425,8 +425,8 @@ VARIANTS += [
 ]
 
 VARIANTS += [
-    fire('r6-deepcopy-memo-threaded', ['C11'], [(BA, "        del memo  # unused\n", ""), (BA, "            new_token = copy.deepcopy(token)\n", "            new_token = copy.deepcopy(token, memo)\n")], 'COPY-STORE'),
-    silent('r6-twin-deepcopy-memo-ignored', ['C11'], [(BA, "        del memo  # unused\n", "        _ = memo\n")]),
+    fire('r6-deepcopy-memo-threaded', ['C11'], [(BA, "        del memo  # unused\n        tokens: list[RawTokenModel] = []\n", "        tokens: list[RawTokenModel] = []\n"), (BA, "            new_token = copy.deepcopy(token)\n", "            new_token = copy.deepcopy(token, memo)\n")], 'COPY-STORE'),
+    silent('r6-twin-deepcopy-memo-ignored', ['C11'], [(BA, "        del memo  # unused\n        tokens: list[RawTokenModel] = []\n", "        _ = memo\n        tokens: list[RawTokenModel] = []\n")]),
 ]
 
 GRM = 'autobean_refactor/beancount.lark'
@@ -500,4 +500,15 @@ VARIANTS += [
     fire('r6-drop-many-ascending', ['C19'], [(PR, "        indexes = sorted(indexes, reverse=True)\n", "        indexes = sorted(indexes)\n"),
                                              (PR, "key=lambda i: i + next(count))", "key=lambda i: i - next(count))"),
                                              (PR, "            self._del_tokens(r[-1], r[0] + 1)", "            self._del_tokens(r[0], r[-1] + 1)")], 'DROP-REFUSE'),
+]
+
+NU = 'autobean_refactor/models/number_unary_expr.py'
+VARIANTS += [
+    fire('fix-revert-unary-copy-negate', ['C09', 'C13'], [(NU, "            return self._operand.value.copy_negate()", "            return -self._operand.value")], 'DEC-EXACT'),
+]
+
+_BI_OLD = "        cursor = self._cursor\n        while cursor < len(self._tokens):\n            token = self._tokens[cursor]\n            if token.value:\n                if token.type == 'INDENT':\n                    self._fix_gap(cursor)\n                    return self._build_token(token)\n                if not token.type in _IGNORED_TOKENS:\n                    break\n            cursor += 1\n"
+VARIANTS += [
+    fire('r6-build-indent-skips-model-tokens', ['C01'], [(PA, _BI_OLD, "        for cursor in range(self._cursor, len(self._tokens)):\n            token = self._tokens[cursor]\n            if token.type == 'INDENT' and token.value:\n                self._fix_gap(cursor)\n                return self._build_token(token)\n")], 'BUILDER-CONS'),
+    silent('r6-twin-build-indent-for-loop', ['C01'], [(PA, _BI_OLD, "        for cursor in range(self._cursor, len(self._tokens)):\n            token = self._tokens[cursor]\n            if not token.value:\n                continue\n            if token.type == 'INDENT':\n                self._fix_gap(cursor)\n                return self._build_token(token)\n            if token.type not in _IGNORED_TOKENS:\n                break\n")]),
 ]
